@@ -11,5 +11,10 @@ for id in "$@"; do
   /verif/bin/acvlint check -property "$id" -tier ${TIER:-quick} | grep -v '^KNOWN-FINDING' | tail -${LINES_SHOWN:-8}
   echo "exit[$id]=${PIPESTATUS[0]}"
 done
-git -C /repo checkout -- . 
-git -C /repo status --porcelain --untracked-files=no
+git -C /repo apply -R $rev "$patch" 2>/dev/null || { [ -n "$rev" ] && git -C /repo apply "$patch"; }
+git -C /repo checkout -- .
+# files created by the patch
+for f in $(grep '^+++ b/' "$patch" | sed 's|^+++ b/||'); do
+  if ! git -C /repo ls-files --error-unmatch "$f" >/dev/null 2>&1; then rm -f "/repo/$f"; fi
+done
+git -C /repo status --porcelain
